@@ -39,6 +39,7 @@ type Case struct {
 	Updates  int          `json:"updates,omitempty"` // 1.3: UpdateKeys calls per side interleaved with the writes
 	Export   string       `json:"export,omitempty"`  // "", "C", "S": export/import that side between two write phases (1.2)
 	NearMax  int          `json:"nearmax,omitempty"` // with Export: rewrite the serialised counter to 2^48-NearMax
+	Export2  bool         `json:"export2,omitempty"` // export/import the same side once more after the second phase (unmodified bytes), then a third phase
 	Close    bool         `json:"close,omitempty"`
 }
 
@@ -162,6 +163,18 @@ func run(c Case, r *pbt.R) {
 			sd.StartReader()
 			scen.Settle()
 			phase(2)
+			if c.Export2 {
+				// second seam, e.g. with the sequence space already exhausted by phase 2
+				if _, err := p.ExportImport(sd, env, ep, nil); err != nil {
+					r.Failf("C09|export-import-failed", "second export/import of %s: %v", c.Export, err)
+
+					return
+				}
+				sd.StartReader()
+				scen.Settle()
+				phase(3)
+				r.Class("second-export")
+			}
 		}
 		if c.Close {
 			_ = p.C.Conn.Close()
@@ -362,6 +375,7 @@ func gen(t *rapid.T) Case {
 		c.Export = rapid.SampledFrom([]string{"C", "S"}).Draw(t, "expside")
 		if rapid.IntRange(0, 2).Draw(t, "near") == 0 {
 			c.NearMax = rapid.IntRange(1, 3).Draw(t, "nearmax")
+			c.Export2 = rapid.Bool().Draw(t, "export2")
 		}
 	}
 	c.Close = rapid.Bool().Draw(t, "close")
